@@ -13,7 +13,9 @@
      4 acquire transaction_lock               (with self.transaction_lock:)
      5 _send_ipmi_msg: IpmiMsg.pack (session.increment_sequence_number when the
        session is activated) + sendto         (inside)
-     6 _q.get() if not _q.empty() else recvfrom; rx_filter; loop   (inside)
+     6 _q.get() if not _q.empty() else recvfrom; rx_filter; a frame that does not
+       answer the request is dropped (since the F4 repair it is no longer put on _q;
+       nothing in the code fills _q any more) and counted; loop        (inside)
      7 release (leaving the with block, also on an exception); return rx_data[6:-1]
        or raise RetryError.
    Not modelled: bridged targets (target.routing -> one more unlocked read of
@@ -62,14 +64,16 @@ Record gstate := mkG {
   g_nsn : N;                (* Rmcp.next_sequence_number *)
   g_lock : option tid;      (* owner of Rmcp.transaction_lock *)
   g_sseq : N;               (* Rmcp._session.sequence_number *)
-  g_q : list frame;         (* Rmcp._q (frames that did not match, oldest first) *)
+  g_q : list frame;         (* Rmcp._q (read first when non-empty; nothing fills it since the F4 repair) *)
   g_inbox : list frame;     (* datagrams waiting in the socket: the BMC's answers not yet read *)
   g_nrx : N;                (* reference BMC: number of datagrams received so far *)
   g_wire : list event;      (* socket log, NEWEST FIRST *)
   g_thr : list thread }.
 
 Record cfg := mkCfg { c_max_retries : nat;   (* Rmcp.max_retries *)
-                      c_active : bool }.     (* Session.activated *)
+                      c_active : bool;       (* Session.activated *)
+                      c_stale : list N }.    (* reference BMC: the datagram numbers it answers with
+                                                an unrelated (stale rq_seq) frame BEFORE the reply *)
 
 (* Session.increment_sequence_number:
      self.sequence_number += 1
@@ -82,6 +86,15 @@ Definition pack_sseq (c : cfg) (s : N) : N := if c_active c then next_sseq s els
 (* the in-order reference BMC: answers datagram number n (request q, rq_seq h) with a
    frame carrying the same rq_seq and cmd, netfn | 1, and n as its payload *)
 Definition bmc_reply (n h : N) (q : treq) : frame := mkFrame h (N.lor (q_netfn q) 1) (q_cmd q) n.
+
+(* ... optionally preceded by an unrelated frame: same netfn/cmd, a different (stale)
+   sequence number, another payload *)
+Definition is_stale (c : cfg) (n : N) : bool := existsb (N.eqb n) (c_stale c).
+Definition stale_seq (h : N) : N := if h =? 0 then 1 else h - 1.
+Definition stale_frame (n h : N) (q : treq) : frame :=
+  mkFrame (stale_seq h) (N.lor (q_netfn q) 1) (q_cmd q) (n + 100).
+Definition bmc_frames (c : cfg) (n h : N) (q : treq) : list frame :=
+  (if is_stale c n then [stale_frame n h q] else []) ++ [bmc_reply n h q].
 
 (* rx_filter(header, rx_data, rq_seq=True) on the abstract frame *)
 Definition rx_match (h : N) (q : treq) (r : frame) : bool :=
@@ -108,16 +121,14 @@ Definition set_lock (g : gstate) (o : option tid) : gstate :=
 
 (* the tail of one iteration of the inner while loop, after rx_data was obtained:
      received = rx_filter(header, rx_data, ...)
-     if not received: self._q.put(rx_data)
+     # a frame that does not answer this request is dropped
      received_retry += 1
    then the loop condition / `if not received: raise RetryError` / break *)
 Definition after_rx (c : cfg) (g : gstate) (t : tid) (th : thread) (q : treq)
            (h : N) (retry rr : nat) (rx : frame) : gstate :=
   if rx_match h q rx then set_thr g t (set_pc th (PRel h (Ok rx)))
-  else
-    let g' := mkG (g_nsn g) (g_lock g) (g_sseq g) (g_q g ++ [rx]) (g_inbox g) (g_nrx g) (g_wire g) (g_thr g) in
-    if Nat.leb (S rr) (c_max_retries c) then set_thr g' t (set_pc th (PRecv h retry (S rr)))
-    else set_thr g' t (set_pc th (PRel h (Err RetryError))).
+  else if Nat.leb (S rr) (c_max_retries c) then set_thr g t (set_pc th (PRecv h retry (S rr)))
+  else set_thr g t (set_pc th (PRel h (Err RetryError))).
 
 (* one atomic step of thread t; None = t does not exist, has finished, or is blocked
    on the lock *)
@@ -148,7 +159,7 @@ Definition step_l (c : cfg) (g : gstate) (t : tid) : option (label * gstate) :=
           let s := pack_sseq c (g_sseq g) in
           Some (LSend,
                 set_thr (mkG (g_nsn g) (g_lock g) s (g_q g)
-                             (g_inbox g ++ [bmc_reply (g_nrx g) h q]) (g_nrx g + 1)
+                             (g_inbox g ++ bmc_frames c (g_nrx g) h q) (g_nrx g + 1)
                              (Sent t (t_k th) s h q :: g_wire g) (g_thr g))
                         t (set_pc th (PRecv h retry 0)))
       | PRecv h retry rr =>
@@ -219,6 +230,19 @@ Fixpoint nsent (w : list event) : N :=
   | Sent _ _ _ _ _ :: l => nsent l + 1
   | Rcvd _ _ :: l => nsent l
   end.
+
+(* one complete exchange of thread t (its k-th request, datagram number n): newest
+   first / in transmission order *)
+Definition exch_mid (c : cfg) (t : tid) (n h : N) (q : treq) : list event :=
+  if is_stale c n then [Rcvd t (stale_frame n h q)] else [].
+Definition exch_nf (c : cfg) (t : tid) (k : nat) (s h : N) (q : treq) (n : N) : list event :=
+  Rcvd t (bmc_reply n h q) :: exch_mid c t n h q ++ [Sent t k s h q].
+Definition exch_tx (c : cfg) (t : tid) (k : nat) (s h : N) (q : treq) (n : N) : list event :=
+  Sent t k s h q :: exch_mid c t n h q ++ [Rcvd t (bmc_reply n h q)].
+
+(* the BMC sends at most one unrelated frame per datagram: max_retries must allow
+   reading past it *)
+Definition stale_ok (c : cfg) : Prop := c_stale c = [] \/ (1 <= c_max_retries c)%nat.
 
 Definition finished (th : thread) : bool := Nat.leb (length (t_reqs th)) (t_k th).
 Definition all_finished (g : gstate) : bool := forallb finished (g_thr g).
